@@ -48,11 +48,66 @@ def seq(items):
         r = "RSeq (%s) (%s)" % (p, r)
     return r
 
+def mandatory(it):
+    if isinstance(it, dict) and "one_of" in it:
+        return all(mandatory(a) for a in it["one_of"])
+    if isinstance(it, dict):
+        return it["min"] >= 1
+    return it[1].startswith("M")
+
+def label(it):
+    if isinstance(it, dict) and "one_of" in it:
+        return "/".join(label(a) for a in it["one_of"])
+    if isinstance(it, dict):
+        return "sequence " + it["seq"]
+    return it[0]
+
+def deletions(items, where=""):
+    """[(description, items')]: the item lists in which exactly one mandatory element is missing: a mandatory field, every
+    occurrence of a mandatory repetitive field, a whole mandatory sequence, or a mandatory element of ONE occurrence of a
+    sequence (that occurrence anywhere among the others)"""
+    out = []
+    for i, it in enumerate(items):
+        same_next = (i + 1 < len(items) and not isinstance(it, dict) and not isinstance(items[i + 1], dict)
+                     and tags_of(items[i + 1]) == tags_of(it))
+        if mandatory(it) and not same_next:      # (34F M, 34F O: without the first, the second takes its place)
+            out.append((where + label(it), items[:i] + items[i + 1:]))
+        if isinstance(it, dict) and "items" in it:
+            for desc, inner in deletions(it["items"], where + it["seq"] + "."):
+                if not inner or all(nullable(x) for x in inner):
+                    continue      # the occurrence would be empty: that is the deletion of the occurrence itself
+                any_g = dict(it, min=0, max=None)
+                broken = {"seq": it["seq"] + "'", "min": 1, "max": 1, "items": inner}
+                if it["max"] == 1:       # a sequence that occurs at most once: its only occurrence is the broken one
+                    out.append((desc, items[:i] + [broken] + items[i + 1:]))
+                else:
+                    out.append((desc, items[:i] + [any_g, broken, any_g] + items[i + 1:]))
+    return out
+
+def deletion_table(S):
+    rows = []
+    for T in sorted(k for k in S if k.startswith("MT")):
+        ds = deletions(S[T])
+        rows.append("  (%s, [%s])" % (q(T), "; ".join("(%s, %s)" % (q(d), seq(a) if a else "REps") for d, x in ds for a in alternatives(x))))
+    return ["Definition spec_deletions : list (bytes * list (bytes * re)) := [", ";\n".join(rows), "]."]
+
+def alternatives(items):
+    """the same language as a finite union: each top-level sequence that occurs at most once (min 0, max 1) is either
+    absent or present.  The analysis of Engine/Abs.v runs once per alternative, which keeps the presence of such a
+    sequence and the variables that record it together."""
+    alts = [[]]
+    for it in items:
+        if isinstance(it, dict) and "items" in it and it["min"] == 0 and it["max"] == 1:
+            alts = [a for a in alts] + [a + [dict(it, min=1)] for a in alts]
+        else:
+            alts = [a + [it] for a in alts]
+    return alts
+
 def table(name, S):
     rows = []
     for T in sorted(k for k in S if k.startswith("MT")):
-        rows.append("  (%s, %s)" % (q(T), seq(S[T])))
-    return ["Definition %s : list (bytes * re) := [" % name, ";\n".join(rows), "]."]
+        rows.append("  (%s, [%s])" % (q(T), "; ".join(seq(a) if a else "REps" for a in alternatives(S[T]))))
+    return ["Definition %s : list (bytes * list re) := [" % name, ";\n".join(rows), "]."]
 
 def main(src, dst, restricted=None):
     S = json.load(open(src))
@@ -62,6 +117,8 @@ def main(src, dst, restricted=None):
     out += table("specs", S)
     out.append("")
     out += table("specs_restricted", json.load(open(restricted)) if restricted else {})
+    out.append("")
+    out += deletion_table(S)
     new = "\n".join(out) + "\n"
     if not os.path.exists(dst) or open(dst).read() != new:     # keep make's timestamps meaningful
         open(dst, "w").write(new)
